@@ -198,14 +198,37 @@ func (eb *ExposureBias) UnmarshalText(text []byte) (err error) {
 				} else {
 					n = int16(parseUint(text[:i]))
 				}
+				// 8 bits hold the numerator and 8 the denominator: a value
+				// written in tenths or hundredths ("200/100") is reduced first
+				d := int16(parseUint(text[i+1:]))
+				if n < -128 || n > 127 || d < 0 || d > 255 {
+					if g := gcd16(n, d); g > 1 {
+						n, d = n/g, d/g
+					}
+				}
 				n = n << 8
-				n += int16(parseUint(text[i+1:]))
+				n += d
 				*eb = ExposureBias(n)
 				return err
 			}
 		}
 	}
 	return
+}
+
+// gcd16 returns the greatest common divisor of |a| and |b| (0 if both are 0).
+func gcd16(a, b int16) int16 {
+	x, y := int32(a), int32(b)
+	if x < 0 {
+		x = -x
+	}
+	if y < 0 {
+		y = -y
+	}
+	for y != 0 {
+		x, y = y, x%y
+	}
+	return int16(x)
 }
 
 // MeteringMode is the mode in which the image was metered.
